@@ -227,17 +227,21 @@ QVALS = [None, '0', '0.0', '0.000', '1', '1.0', '0.5', '0.001', '.5', '1.', 'abc
 
 def st_header():
     ows = st.sampled_from(['', ' ', '  ', '\t'])
+    # the last member is the shape of the parameter: name=value, or one of the malformed shapes a sloppy peer may send
     item = st.tuples(st.sampled_from(TOKENS), st.sampled_from(QVALS), ows, ows, st.sampled_from(['q', 'Q', 'q ', ' q']),
-                     st.booleans())
+                     st.booleans(), st.sampled_from(PARAM_FORMS))
     return st.lists(item, min_size=0, max_size=5)
+
+
+PARAM_FORMS = ['{n}={v}', '{n}={v}', '{n}={v}', '{n}', '', '={v}', '{n}=={v}', '{n}={v}=', '{v}']
 
 
 def render_header(items) -> str:
     parts = []
-    for tok, q, w1, w2, qname, extra in items:
+    for tok, q, w1, w2, qname, extra, *form in items:
         s = f'{w1}{tok}{w2}'
         if q is not None:
-            s += f';{qname}={q}'
+            s += ';' + (form[0] if form else '{n}={v}').format(n=qname, v=q)
         if extra:
             s += ';x=1'
         parts.append(s)
@@ -247,9 +251,11 @@ def render_header(items) -> str:
 def ref_quality(items) -> dict:
     """token -> 'zero' | 'positive' | 'unspecified' (malformed q) following RFC 7231 section 5.3.1 for well-formed q."""
     out = {}
-    for tok, q, _w1, _w2, qname, _extra in items:
+    for tok, q, _w1, _w2, qname, _extra, *form in items:
         if q is None:
             verdict = 'positive'
+        elif form and form[0] != '{n}={v}':
+            verdict = 'unspecified'  # not a parameter of the form name=value
         elif qname.strip().lower() == 'q' and re.fullmatch(r'(0(\.[0-9]{0,3})?|1(\.0{0,3})?)', q.strip()):
             verdict = 'zero' if float(q) == 0 else 'positive'
         else:
